@@ -1164,10 +1164,7 @@ func TestVerifC22(t *testing.T) {
 		r.Count("client_cases_"+sc.BP, 1)
 		if !ok {
 			r.Count("bubbles_abandoned", 1)
-			if abandoned.Load() >= 2 {
-				break
-			}
-			continue
+			break // see guard_test.go: a leaked spinner slows everything that follows
 		}
 		flush(r, res)
 		if i < 2 {
@@ -1179,6 +1176,9 @@ func TestVerifC22(t *testing.T) {
 	}
 	n = r.N(600, 12000) / div
 	for i := 0; i < n; i++ {
+		if abandoned.Load() > 0 {
+			break
+		}
 		if !r.Want("server", i) || only != "" && only != "server" {
 			continue
 		}
@@ -1201,6 +1201,9 @@ func TestVerifC22(t *testing.T) {
 	}
 	n = r.N(400, 8000) / div
 	for i := 0; i < n; i++ {
+		if abandoned.Load() > 0 {
+			break
+		}
 		if !r.Want("server-wire", i) || only != "" && only != "server-wire" {
 			continue
 		}
@@ -1219,7 +1222,7 @@ func TestVerifC22(t *testing.T) {
 		}
 	}
 	n = r.N(240, 4800) / div
-	for i := 0; i < n && abandoned.Load() < 2; i++ {
+	for i := 0; i < n && abandoned.Load() == 0; i++ {
 		if !r.Want("after-retry", i) || only != "" && only != "after-retry" {
 			continue
 		}
@@ -1238,6 +1241,9 @@ func TestVerifC22(t *testing.T) {
 		}
 	}
 	for i, v := range []string{"cancel", "deadline"} {
+		if abandoned.Load() > 0 {
+			break
+		}
 		if !r.Want("replay-blocked", i) || only != "" && only != "replay-blocked" {
 			continue
 		}
